@@ -99,12 +99,12 @@ theorem stopK_noWs {K : Str} (h : StopK K) : NoWsHead K := by
 theorem boolop_none (p : Option Nat) (K : Str) (h : StopK K) : charTS.check .boolop ⟨p, K⟩ = none := by
   rw [check_charTS]
   apply check_none_by_head .boolop (by decide)
-  intro c hc
-  rw [heads_all.2.2.2.2.1]
+  intro c hc hmem
+  have hmem := heads_all.2.2.2.2.1 c hmem
   rcases h with rfl | h | h
   · cases hc
-  · simp only at hc; rw [h] at hc; cases hc; decide
-  · simp only at hc; rw [h] at hc; cases hc; decide
+  · simp only at hc; rw [h] at hc; cases hc; revert hmem; decide
+  · simp only at hc; rw [h] at hc; cases hc; revert hmem; decide
 
 /-- `_parse_marker` on the text of a whole (sub)expression in front of the end or `)` -/
 theorem marker_of_parses {T : Str} {L : List M} (h : Parses T L) (p : Option Nat) (w3 K' : Str) (hw3 : WsRun w3) (hK' : StopK K')
